@@ -42,7 +42,8 @@ CREATORS = ["none", "ok", "failfirst", "wrongtype", "falsy"]
 MODES = {"S": "single", "N": "session", "P": "percall"}
 
 
-def make_classes(shape, creator_kind, stats, inherit=False):
+def make_classes(shape, creator_kind, stats, inherit=False, slow=False):
+    """slow: making an instance takes half a second (of virtual time)"""
     import Pyro5.api as P
     serial = itertools.count(1)
     classes = {}
@@ -52,14 +53,21 @@ def make_classes(shape, creator_kind, stats, inherit=False):
         def __init__(self, K=K):
             self.serial = next(serial)
             stats["creates"][K] += 1
+            if slow and S.CUR is not None:
+                S.CUR.sleep(0.5)
             if K == "N":
                 stats["refs"].append(weakref.ref(self))
                 stats["byserial"][self.serial] = weakref.ref(self)
 
         def who(self):
             return self.serial
+
+        def note(self):
+            # a oneway member: the caller learns nothing, the instance that served it is written down here
+            stats.setdefault("noted", []).append(self.serial)
         ns["__init__"] = __init__
         ns["who"] = who
+        ns["note"] = P.oneway(note)
         if shape == "falsy_len":
             ns["__len__"] = lambda self: 0
         elif shape == "falsy_bool":
@@ -151,7 +159,10 @@ def end_connection(p, abortive):
     p._pyroRelease()
 
 
-def run_history(h, shape, creator_kind, servertype="multiplex", hookraise=False, two_daemons=False, abortive=False, inherit=False, rereg=False):
+def run_history(h, shape, creator_kind, servertype="multiplex", hookraise=False, two_daemons=False, abortive=False, inherit=False, rereg=False,
+                oneway_first=False):
+    """oneway_first: instances take a while to make, and every call is preceded by a oneway call on the same class over the same
+    connection (a oneway call runs in a thread of its own while the connection's next request is already being served)"""
     import Pyro5.api as P
     from Pyro5 import config
     config.SERVERTYPE = servertype
@@ -163,7 +174,7 @@ def run_history(h, shape, creator_kind, servertype="multiplex", hookraise=False,
     def main():
         sc = S.CUR
         d = daemon_class(P, hookraise)(host="127.0.0.1")
-        classes = make_classes(shape, creator_kind, stats, inherit=inherit)
+        classes = make_classes(shape, creator_kind, stats, inherit=inherit, slow=oneway_first)
         uris = {K: d.register(cls, K) for K, cls in classes.items()}
         drv = memnet.ServerDriver(d)
         conns = {}
@@ -203,6 +214,10 @@ def run_history(h, shape, creator_kind, servertype="multiplex", hookraise=False,
                 tr.append({"e": "close", "c": cid, "alive": alive_after_close(stats, cid)})
             elif a == "call":
                 cid, p = conns[c]
+                noted0 = len(stats.get("noted", []))
+                if oneway_first:
+                    from Pyro5 import protocol
+                    p._pyroInvoke("note", (), {}, flags=protocol.FLAGS_ONEWAY, objectId=k)
                 try:
                     inst = p._pyroInvoke("who", (), {}, objectId=k)
                     if k == "N":
@@ -212,6 +227,14 @@ def run_history(h, shape, creator_kind, servertype="multiplex", hookraise=False,
                     raise
                 except Exception:
                     tr.append({"e": "call", "c": cid, "k": k, "inst": 0, "ok": False})
+                if oneway_first:
+                    sc.sleep(1.0)
+                    sc.quiesce()
+                    for sn in stats.get("noted", [])[noted0:]:
+                        # the oneway call that went first was served as well: by which instance
+                        if k == "N":
+                            stats["served"].setdefault(cid, set()).add(sn)
+                        tr.insert(len(tr) - 1, {"e": "call", "c": cid, "k": k, "inst": sn, "ok": True})
         for c in list(conns):
             cid, p = conns.pop(c)
             end_connection(p, abortive)
@@ -306,9 +329,10 @@ def run(ctx):
             ab = i % 7 in (2, 3)    # the connections end with a reset instead of an orderly close
             inh = {1: True, 4: True, 2: "override", 5: "override"}.get(i % 8, False)   # the classes inherit their behaviour / override an inherited one
             rr = (not two) and i % 4 == 2     # unregistered and registered again half way
-            traces.append(run_history(h, shape, "none", servertype=st, hookraise=hr, two_daemons=two, abortive=ab, inherit=inh, rereg=rr))
+            ow = i % 6 == 4 and not two and not rr
+            traces.append(run_history(h, shape, "none", servertype=st, hookraise=hr, two_daemons=two, abortive=ab, inherit=inh, rereg=rr, oneway_first=ow))
             metas.append({"part": "history" + ("-threadserver" if st == "thread" else ""), "shape": shape, "creator": "none", "h": h, "hookraise": hr,
-                          "two_daemons": two, "abortive": ab, "inherit": inh, "rereg": rr})
+                          "two_daemons": two, "abortive": ab, "inherit": inh, "rereg": rr, "oneway_first": ow})
     for creator in CREATORS[1:]:
         for shape in ("truthy", "falsy_len"):
             for j, h in enumerate(hs[n_plain:n_plain + n_creator]):
